@@ -190,6 +190,12 @@ def describe(calc, data=None):
     return cl
 
 
+# a residual counts as integration error when doubling the mesh density removes at least 20% of it: k-mesh errors fall like 1/N (0.5)
+# or faster once asymptotic, 0.6-0.75 was observed pre-asymptotically for diffusivity anisotropies of 350:1, while a term that is
+# simply wrong does not move (R16: ratio 1.00)
+SHRINK = 0.8
+
+
 def within_integration_accuracy(setup, residual, r4, tight, loose=np.inf, NGFmax=8):
     """Decides 'holds to within the calculator's Brillouin-zone integration accuracy' by refinement instead of a guessed
     constant: a residual above the tight tolerance is accepted only if it shrinks at least by half
@@ -201,4 +207,4 @@ def within_integration_accuracy(setup, residual, r4, tight, loose=np.inf, NGFmax
         return False, None
     calc8 = calculator(setup, NGFmax=NGFmax)[3]
     r8 = residual(calc8)
-    return bool(r8 <= max(tight, 0.5 * r4)), r8
+    return bool(r8 <= max(tight, SHRINK * r4)), r8
